@@ -159,7 +159,7 @@ class Universe:
                     affector_attr_id=ids[si]))
             resist = None
             if cat == EffectCategoryId.target and all(m.affectee_domain == ModDomain.target for m in mods) \
-                    and all(m.affectee_filter != ModAffecteeFilter.owner_skillrq for m in mods) \
+\
                     and (forced or rnd.random() < 0.5) and lowest_tgt + 1 < n:
                 tis = [ids.index(m.affectee_attr_id) for m in mods]
                 resist = ids[rnd.randrange(max(tis) + 1, n)] if max(tis) + 1 < n else None
@@ -474,7 +474,7 @@ class World:
         for vid, a in pairs:
             try:
                 self.items[vid].attrs[a]
-            except KeyError:
+            except (KeyError, ZeroDivisionError):
                 pass
 
     def op_read_all(self):
